@@ -11,16 +11,16 @@ PROP = "C20"
 
 def grids(tier):
     if tier == "quick":
-        W = [0.1, 0.254, 1.0, 7.5]
+        W = [0.01, 0.1, 0.254, 1.0, 7.5]            # includes a 10 um thin-film trace
         Ls = [0.5, 1.0, 7.5, 15.0, 350.0]          # includes l == w (exactly one square)
-        T = [0.0175, 0.035, 0.0350001, 0.07]       # includes nearly equal thicknesses
+        T = [5e-5, 0.0175, 0.035, 0.0350001, 0.07]  # includes nearly equal thicknesses and a 50 nm film
         R = [RHO, 1.68e-8, 2.65e-8]                # includes nearly equal resistivities
         TE = [20.0, -40.0, 21.25, 36.64, 125.0]   # includes temperatures that are not multiples of 0.1
         TC = [TCR, 0.0, 0.00429, 1.5]             # includes a coefficient above 1 per degree
     else:
-        W = [0.05, 0.1, 0.127, 0.254, 1.0, 3.3, 7.5, 25.0]
+        W = [0.001, 0.01, 0.05, 0.1, 0.127, 0.254, 1.0, 3.3, 7.5, 25.0]
         Ls = [0.01, 0.1, 0.5, 1.0, 7.5, 15.0, 25.0, 80.0, 350.0, 1e4]
-        T = [0.009, 0.0175, 0.035, 0.0350001, 0.07, 0.105]
+        T = [5e-5, 1e-3, 0.009, 0.0175, 0.035, 0.0350001, 0.07, 0.105]
         R = [RHO, 1.68e-8, 1.7241e-8, 2.65e-8, 1.0e-6]
         TE = [20.0, -55.0, -40.0, 0.0, 21.25, 36.64, 48.375, 85.0, 125.0]
         TC = [TCR, 0.0, 0.00429, 1e-5, 1.0, 1.5]
@@ -74,6 +74,23 @@ def check_case(case):
             res.v(("C20.defaults", "trace", "+".join(omit)), "%r: omitting %r differs from passing the documented defaults" % (case, omit))
         if plane_res(w=w1, l=l, t_mm=t, **given) != plane_res(w=w1, l=l, t_mm=t, **full):
             res.v(("C20.defaults", "plane", "+".join(omit)), "%r: omitting %r differs from passing the documented defaults" % (case, omit))
+    # arguments handed over as numpy values (a temperature sweep as an array): same numbers element by element, and the caller's array is left alone
+    import numpy as np
+    tarr = np.array([te, te + 30.0, te - 7.5])
+    tkeep = tarr.copy()
+    for nm, f, ref in (("trace", lambda t_: trace_res(w1_mm=w1, w2_mm=w2, l_mm=l, t_mm=t, rho=rho, temp=t_, tcr=tc), tr),
+                       ("plane", lambda t_: plane_res(w=w1, l=l, t_mm=t, rho=rho, temp=t_, tcr=tc), pr)):
+        try:
+            got = np.asarray(f(tarr), dtype=float)
+        except Exception as e:
+            res.v(("C20.array-temperature-raises", nm, type(e).__name__), "%r" % (case,))
+            continue
+        want = [ref(temp=float(x)) for x in tkeep]
+        if got.shape != (3,) or not all(rel(float(a_), b_, 1e-12) for a_, b_ in zip(got, want)):
+            res.v(("C20.array-temperature", nm), "%r: %r vs %r" % (case, got.tolist(), want))
+        if not np.array_equal(tarr, tkeep):
+            res.v(("C20.argument-modified", nm), "%r: the temperature array passed in is now %r" % (case, tarr.tolist()))
+            tarr = tkeep.copy()
     # no call may change what a later call with defaults returns (module-level state)
     if (trace_res(**SENT_T), plane_res(**SENT_P), RHO, TCR) != SENT0 or (__import__("sysloss.utils").utils.RHO, __import__("sysloss.utils").utils.TCR) != SENT0[2:]:
         res.v(("C20.state-leak",), "after evaluating %r a default call returns %r, at start-up %r" % (case, (trace_res(**SENT_T), plane_res(**SENT_P)), SENT0[:2]))
